@@ -222,7 +222,7 @@ Proof.
     destruct o.
     + eapply IH; [exact W2| |exact H]. intros m Hm. rewrite B2. apply Hk. right. exact Hm.
     + inversion H; discriminate.
-    + eapply IH; [apply close_client_WF| |exact H]. intros m Hm. simpl. rewrite B2. apply Hk. right. exact Hm.
+    + eapply IH; [apply close_early_WF; exact W2| |exact H]. intros m Hm. simpl. rewrite B2. apply Hk. right. exact Hm.
 Qed.
 
 Lemma unaware_no_keyerror : forall st u st' log r, WF st -> unaware st u = (st', log, r) -> r <> UKeyError.
